@@ -73,7 +73,7 @@ def gen_case(rng, tier):
         layers = [('linear', a, b, 1), ('tanh',), ('linear', b, c, int(rng.integers(0, 2)))]
         in_shape = [a]
     method = str(rng.choice(['eigen', 'inverse']))
-    return {
+    c_ = {
         'model': layers, 'in_shape': in_shape, 'batch': int(rng.integers(1, 6)),
         'method': method, 'prediv': bool(rng.integers(0, 2)),
         'damping': float(rng.choice([1.0, 0.1, 0.01, 0.003])),
@@ -88,6 +88,16 @@ def gen_case(rng, tier):
         'steps': int(rng.integers(1, 4)),
         'seed': int(rng.integers(0, 2 ** 31)),
     }
+    # stratum (derived from the case seed, so the random stream of the other fields is unchanged): a damping schedule together
+    # with inverse refreshes that are more frequent than factor refreshes; on every inverse-update step the second-order data must
+    # be rebuilt from the current factors AND the current damping, whether or not a factor changed since the last refresh
+    sd_ = c_['seed']
+    if not c_['inject'] and sd_ % 3 == 0:
+        c_['sched'] = True
+        c_['factor_update_steps'] = [2, 4][(sd_ // 3) % 2]
+        c_['inv_update_steps'] = [1, 2][(sd_ // 6) % 2]
+        c_['steps'] = c_['steps'] + 3
+    return c_
 
 
 def run_impl(c):
@@ -108,6 +118,10 @@ def run_impl(c):
         kw['factor_dtype'] = getattr(torch, c['factor_dtype'])
     if c['inject']:
         kw.update(factor_update_steps=1000, inv_update_steps=1000)
+    if c.get('sched'):
+        base = c['damping']
+        kw.update(damping=lambda step: base * (1.0 + 0.5 * step), factor_update_steps=c['factor_update_steps'],
+                  inv_update_steps=c['inv_update_steps'])
     p = KFACPreconditioner(model, **kw)
     mods = [m for m in model if isinstance(m, (torch.nn.Linear, torch.nn.Conv2d))]
     rng = np.random.default_rng(c['seed'])
@@ -145,6 +159,8 @@ def run_impl(c):
         meta = [(str(m.weight.grad.dtype), tuple(m.weight.grad.shape), m.weight.grad.is_contiguous()) for m in mods]
         if c['inject'] and s == 0:
             continue
+        if c.get('sched') and s % c['inv_update_steps'] != 0:
+            continue        # second-order data legitimately older than the damping of this step (staleness: C05)
         out.append({'D': D, 'after': after, 'lam': lam, 'meta': meta,
                     'A': [sd['layers'][n]['A'].double().numpy() for n in names],
                     'G': [sd['layers'][n]['G'].double().numpy() for n in names]})
@@ -200,6 +216,7 @@ def run(tier, seed, rng_py):
     cov = Coverage('random models (Linear with 2-d / N-d inputs, Conv2d with rectangular kernels, strides, paddings, bias on/off, '
                    '2-layer MLPs) x {eigen, eigen+prediv, inverse} x damping in [3e-3, 1] x module/factor/inverse dtypes x factors '
                    'from real passes or injected through load_state_dict with prescribed spectra (incl. rank-deficient) x 1-3 steps; '
+                   'stratum: damping schedule with inv_update_steps < factor_update_steps, 4-6 steps, checked on inverse-update steps; '
                    'non-trivial = layer with m, n >= 2; distinct by hash')
     failures: list[Failure] = []
     n = 150 if tier == 'quick' else 2000
@@ -220,7 +237,7 @@ def run(tier, seed, rng_py):
                 case = dict(c, step=si, layer=li, shape=list(D.shape), kappa=kappa)
                 cov.add(case, min(D.shape) >= 2, sample_cap=2)
                 cov.count('method', c['method'] + ('+prediv' if c['method'] == 'eigen' and c['prediv'] else ''))
-                cov.count('kind', c['model'][0][0]); cov.count('inject', c['inject']); cov.count('clip', c['kl_clip'] is not None)
+                cov.count('kind', c['model'][0][0]); cov.count('inject', c['inject']); cov.count('damping_schedule', bool(c.get('sched'))); cov.count('clip', c['kl_clip'] is not None)
                 maxcontract = max(maxcontract, contract)
                 tol = 64 * EPS32 * max(kappa, 1.0) + 1e-6
                 want = nu * V
